@@ -1177,6 +1177,52 @@ fn abort_case(prop: &str, idx: u64, tmproot: &Path) -> CaseRec {
     }
 }
 
+/// a shell expression larger than the pipe buffer (64 KiB) whose shell ends before it has read all of it: the command
+/// finishes at once, inside every limit, and must not be reported as timed out.
+/// idx 0: control (150 KB of comment lines in FRONT of the command: everything is read); 1: `exit 0` first; 2: `echo early; exit 3` first
+fn oversized_case(prop: &str, idx: u64, tmproot: &Path) -> CaseRec {
+    let dir = tmproot.join(format!("oversized-{idx}"));
+    let _ = std::fs::remove_dir_all(&dir);
+    std::fs::create_dir_all(dir.join("tmp")).unwrap();
+    let filler: String = format!("> # {}\n", "x".repeat(100)).repeat(1500);
+    let (head, tail, exp) = match idx {
+        0 => ("$ : start\n", "> echo ok\n", "ok\n"),
+        1 => ("$ exit 0\n", "", ""),
+        _ => ("$ echo early; exit 3\n", "", "early\n[3]\n"),
+    };
+    let text = format!("# first\n\n```scrut\n{head}{filler}{tail}{exp}```\n\n# second\n\n```scrut\n$ echo hi\nhi\n```\n");
+    let p = dir.join("doc.md");
+    std::fs::write(&p, text).unwrap();
+    let t0 = std::time::Instant::now();
+    let out = std::process::Command::new(scrut_bin()).arg("test").arg("-r").arg("json").arg(&p).current_dir(&dir).env("TMPDIR", dir.join("tmp")).output().expect("run scrut");
+    let wall = t0.elapsed().as_millis() as u64;
+    let code = out.status.code().unwrap_or(-1);
+    let stdout = String::from_utf8_lossy(&out.stdout).to_string();
+    let json: Option<serde_json::Value> = stdout.find('[').and_then(|p| serde_json::from_str(&stdout[p..]).ok());
+    let kinds: Vec<String> = (0..2).map(|i| json.as_ref().and_then(|j| j.pointer(&format!("/{i}/result/kind")).and_then(|v| v.as_str()).map(|s| s.to_string())).unwrap_or("?".into())).collect();
+    let mut fails = vec![];
+    if kinds.iter().any(|k| k == "timeout") {
+        let class = if idx == 0 { "C14:spurious-timeout" } else { "C14:spurious-timeout-shell-left-oversized-expression" };
+        fails.push((class.to_string(), format!("a shell expression of 150 KB whose first line is {:?}: reported {:?} after {wall} ms (document limit 15 min, no per-test limit), exit status {code}", head.trim_end(), kinds)));
+    } else if kinds != ["success", "success"] {
+        fails.push(("C14:oversized-expression-outcome".to_string(), format!("a shell expression of 150 KB whose first line is {:?}: reported {:?}, exit status {code}", head.trim_end(), kinds)));
+    }
+    let _ = std::fs::remove_dir_all(&dir);
+    let base = T { expected: None, stream: 'o', skip: Some(80), timeout: None, acc_empty: false, status: St::Code(0), acc_out: true, acc_err: true, dur: None, wait: 0 };
+    let first = if idx == 2 { T { expected: Some(3), status: St::Code(3), ..base.clone() } } else { T { acc_empty: idx == 1, ..base.clone() } };
+    // the model knows nothing of pipes: it says what the property says. The implementation line is the model's
+    // whenever no spurious timeout was reported (so the open finding is carried by the oracle class alone).
+    let impl_kinds = if fails.iter().any(|f| f.0.starts_with("C14:spurious-timeout")) { "0:success,1:success".to_string() } else { kinds.iter().enumerate().map(|(i, k)| format!("{i}:{k}")).collect::<Vec<_>>().join(",") };
+    let impl_exit = if fails.iter().any(|f| f.0.starts_with("C14:spurious-timeout")) { 0 } else { code };
+    CaseRec {
+        op: format!("rundocs {} case=oversized.{idx}", doc_field(false, None, &[first, base])),
+        impl_out: format!("{impl_kinds} exit={impl_exit}"),
+        oracle_fail: keep(prop, fails),
+        nontrivial: true,
+        tags: vec!["e2e:oversized-expression".into()],
+    }
+}
+
 pub fn run(ctx: &Ctx, prop: &str) {
     let tmproot = std::env::temp_dir().join(format!("scrut-verif-exec-{}", std::process::id()));
     std::fs::create_dir_all(&tmproot).unwrap();
@@ -1285,6 +1331,11 @@ pub fn run(ctx: &Ctx, prop: &str) {
     if prop == "C14" || ctx.thorough {
         let tr = tmproot.clone();
         ctx.run_stream("e2e-timeout-aborts-exhaustive", 10, true, |idx| Some(abort_case(prop, idx, &tr)));
+    }
+    // 4c. a command that ends at once is not a timeout, however large its shell expression (C14)
+    if prop == "C14" || ctx.thorough {
+        let tr = tmproot.clone();
+        ctx.run_stream("e2e-oversized-expression-exhaustive", 3, true, |idx| Some(oversized_case(prop, idx, &tr)));
     }
     let _ = std::fs::remove_dir_all(&tmproot);
 }
